@@ -9,7 +9,15 @@ from contextlib import contextmanager
 
 import numpy as _np
 
-from .core import (SR, T, Unsupported, Pruned, engine, ssqrt, smin, smax, sabs, ite)
+from .core import (SR, T, Unsupported, Pruned, engine, ssqrt, smin, smax, ite)
+from .core import sabs as _sabs_r
+from .fp import SF
+
+
+def sabs(x):
+    if isinstance(x, SF):
+        return abs(x)
+    return _sabs_r(x)
 
 STUB_DOC = {
     'gearpy.solver.np.arange': 'R: start+i*step while < stop (numpy doc: half-open interval), count by forking, '
@@ -27,7 +35,7 @@ STUB_DOC = {
 
 def _has_sym(*xs):
     for x in xs:
-        if isinstance(x, SR):
+        if isinstance(x, (SR, SF)):
             return True
         if isinstance(x, (list, tuple)):
             if _has_sym(*x):
@@ -78,14 +86,14 @@ class NpShim:
 
 
 def sfloat(x=0.0):
-    if isinstance(x, SR):
+    if isinstance(x, (SR, SF)):
         return x
     return float(x)
 
 
 def _guard(fn, name):
     def g(x):
-        if isinstance(x, SR):
+        if isinstance(x, (SR, SF)):
             raise Unsupported('%s of a proxy' % name)
         return fn(x)
     return g
